@@ -588,12 +588,12 @@ def restart_model(model, route, scratch, simfile_kw=None, compile_load=False):
     return qu.clone_model(model)
   if route == "h5_path":
     p = scratch.path("model.h5")
-    model.save(p)
+    model.save(p, include_optimizer=False)
     return qu.load_qmodel(p, compile=compile_load)
   if route == "h5_fileobj":
     sf = SimFile(**(simfile_kw or {}))
     with h5py.File(sf, "w") as f:
-      model.save(f)
+      model.save(f, include_optimizer=False)
     data = bytes(sf.buf)
     with h5py.File(SimFile(data), "r") as f:
       return qu.load_qmodel(f, compile=compile_load)
